@@ -286,7 +286,13 @@ static void sc_mt(int variant) {	// threaded coders under the default schedule o
 		if (chk(lzma_stream_decoder_mt(&s, &mt2), LZMA_OK, LZMA_OK, "lzma_stream_decoder_mt(re-init)")) goto out;
 		if (chk(pump(&s, comp_xz2, n_xz2 / 2, 0, LZMA_FINISH), LZMA_STREAM_END, LZMA_STREAM_END, "lzma_code(mt decoder after re-init)")) goto out;
 		if (s.total_out != 300 || memcmp(obuf, plain, 300)) MISBEHAVE("mt decoder output wrong after re-init"); }
-out:	reuse_after(&s);
+out:	// whatever happened: the same threaded coder is initialised again on this handle (injection off; the coder is kept and reset, not ended), then another coder, then lzma_end -- the balance must be zero
+	{ long a = fa_fail_a, b = fa_fail_b, f = fa_fail_from; fa_fail_a = fa_fail_b = fa_fail_from = -1; lzma_ret r;
+	  if (variant == 1 || variant == 4 || variant == 5) { lzma_mt m = { .threads = 2, .memlimit_threading = UINT64_MAX, .memlimit_stop = UINT64_MAX }; r = lzma_stream_decoder_mt(&s, &m); }
+	  else { lzma_mt m = { .threads = 2, .block_size = 100, .filters = ch_lzma2, .check = LZMA_CHECK_CRC32 }; r = lzma_stream_encoder_mt(&s, &m); }
+	  if (r != LZMA_OK) MISBEHAVE("re-initialising the same threaded coder after the scenario returned %d", r);
+	  fa_fail_a = a; fa_fail_b = b; fa_fail_from = f; }
+	reuse_after(&s);
 }
 #endif
 
